@@ -104,6 +104,19 @@ FP fingerprint(const Node& n)
    FP fp; Fingerprinter f; f.fp = &fp;
    Entry c; c.name = 0xffff; c.data.push_back(std::uintptr_t(n.category)); fp.push_back(c);
    FPDispatch d(f); n.accept(d);
+   // what a scope answers when asked by name, and what each overload set answers when asked by type: one entry per member
+   // met so far, in entry order (a sequence entry: later members may add answers, earlier answers stay)
+   if (auto sc = util::view<Scope>(n)) {
+      Entry e; e.name = 0xfffe; e.kind = 2; e.data.push_back(sc->elements().size());
+      std::size_t k = 0;
+      for (auto& m : sc->elements()) {
+         if (++k > 400) break;
+         try { auto o = (*sc)[m.name()]; e.data.push_back(o.is_valid() ? std::uintptr_t(&o.get()) : 0);
+               if (o.is_valid()) { auto sel = o.get()[m.type()]; e.data.push_back(sel.is_valid() ? std::uintptr_t(&sel.get()) : 0); } else e.data.push_back(1); }
+         catch (const std::logic_error&) { e.data.push_back(2); e.data.push_back(2); }
+      }
+      fp.push_back(std::move(e));
+   }
    return fp;
 }
 
@@ -127,7 +140,7 @@ std::string compare(const FP& was, const FP& now, bool container)
    if (was.size() != now.size()) return "(number of accessors)";
    for (std::size_t i = 0; i < was.size(); ++i) {
       const Entry& a = was[i]; const Entry& b = now[i];
-      const char* nm = a.name == 0xffff ? "category" : accessor_names[a.name];
+      const char* nm = a.name == 0xffff ? "category" : a.name == 0xfffe ? "operator[](name) / operator[](type) of its members" : accessor_names[a.name];
       if (a.name != b.name || a.path != b.path) return nm;
       if (a.kind == b.kind && a.ref != b.ref) return nm;
       if (a.kind != b.kind) {
@@ -251,10 +264,10 @@ struct History {
       switch (k) {
       case 0: S->exprs_unary(); break; case 1: S->exprs_binary(); break; case 2: S->exprs_other(); break; case 3: S->stmts(); break; case 4: S->directives(); break;
       case 5: S->types_and_names(); S->unified_neighbours(); break; case 6: S->decls_and_regions(); break; case 7: S->forms(); break; case 8: S->attributes_captures_units(); break;
-      case 9: { int n = 1 + int(rng.below(40)); for (int i = 0; i < n; ++i) fresh_generative(*en->add_member(id("e", serial++)), "add_member"); break; }
+      case 9: { int n = 1 + int(rng.below(40)); for (int i = 0; i < n; ++i) fresh_generative(*en->add_member(rng.chance(15) ? id("e", int(rng.below(3))) : id("e", serial++)), "add_member"); break; }
       case 10: { int n = 1 + int(rng.below(20)); for (int i = 0; i < n; ++i) { fresh_generative(*cls->declare_field(id("f", serial++), T()), "declare_field"); if (rng.chance(20)) fresh_generative(*cls->declare_base(*un), "declare_base"); } break; }
       case 11: { int n = 1 + int(rng.below(20)); for (int i = 0; i < n; ++i) fresh_generative(*ns->declare_var(id("v", int(rng.below(6))), *tpool[rng.below(3)]), "declare_var"); break; }
-      case 12: { int n = 1 + int(rng.below(20)); for (int i = 0; i < n; ++i) fresh_generative(*mp->param(id("p", serial++), T()), "param"); break; }
+      case 12: { int n = 1 + int(rng.below(20)); for (int i = 0; i < n; ++i) fresh_generative(*mp->param(rng.chance(25) ? lex.get_identifier(u8"") : id("p", serial++), T()), "param"); break; }     // several unnamed parameters
       case 13: { int n = 1 + int(rng.below(20)); for (int i = 0; i < n; ++i) { auto* s = lex.make_expr_stmt(*lex.make_literal(L.int_type(), widen(std::to_string(serial++)))); fresh_generative(*s, "make_expr_stmt"); blk->add_stmt(*s); } if (rng.chance(40)) fresh_generative(*blk->new_handler(id("h", serial++), T()), "new_handler"); break; }
       case 14: { int n = 1 + int(rng.below(60)); for (int i = 0; i < n; ++i) { auto* p = lex.make_phantom(); fresh_generative(*p, "make_phantom"); xl->push_back(p); } break; }
       case 15: { int n = 1 + int(rng.below(20)); for (int i = 0; i < n; ++i) { chain = chain->make_subregion(); fresh_generative(*chain, "make_subregion"); fresh_generative(*chain->declare_var(id("c", serial++), T()), "declare_var"); } break; }
